@@ -83,6 +83,11 @@ var earlyWeights = []int{4, 14, 4, 1, 4, 3, 1, 10, 12, 1, 1, 8, 1, 5, 1, 8, 4, 1
 var lateWeights = []int{6, 4, 5, 4, 10, 10, 5, 3, 8, 5, 6, 7, 5, 5, 4, 3, 5, 3, 2, 4, 3, 3, 3, 2, 1, 1, 4, 2}
 
 func isTx(op string) bool {
+	for _, k := range govKinds {
+		if k == op {
+			return true
+		}
+	}
 	for _, k := range richKinds {
 		if k == op {
 			return true
@@ -138,6 +143,14 @@ func (Engine) Generate(r *simcore.RNG, tier string, idx int) *simcore.Plan {
 	setup.A[1], setup.A[2], setup.A[3], setup.A[4] = 0, 0, 0, 0
 	p.Steps = append(p.Steps, setup)
 	for b := 0; b < nb; b++ {
+		if rich && b == 1 {
+			// two accounts stake early, so that their governance votes carry weight
+			for a := int64(0); a < 2; a++ {
+				st := txStep("stake-delegate")
+				st.A[0], st.A[1], st.A[2], st.A[3], st.A[7] = a, 0, 0, 0, 1
+				p.Steps = append(p.Steps, st)
+			}
+		}
 		ntx := r.Weighted([]int{15, 30, 25, 18, 12})
 		for t := 0; t < ntx; t++ {
 			wts := lateWeights
@@ -151,6 +164,14 @@ func (Engine) Generate(r *simcore.RNG, tier string, idx int) *simcore.Plan {
 					rw = richEarly
 				}
 				kind = richKinds[r.Weighted(rw)]
+			}
+			if rich && r.Chance(0.09) {
+				// governance: submissions early, votes throughout
+				if b < nb/2 && r.Chance(0.6) {
+					kind = "gov-submit"
+				} else {
+					kind = "gov-vote"
+				}
 			}
 			if sfHeavy && b >= 1 && r.Chance(0.4) {
 				// superfluid-heavy profile: several owners join pool 1, lock its shares for various
@@ -455,6 +476,9 @@ func executeOnce(run *simcore.Run) []*violation {
 	}
 	if !w.stop && !w.halt && w.D != nil && w.dLive {
 		w.compareExports("fork-export", "end")
+	}
+	if p.Cfg("rich", 0) != 0 {
+		w.govStats()
 	}
 	return w.viols
 }
